@@ -13,6 +13,11 @@ def check(rep):
     PR.rule_key_order_independent(ctx, rid="C12.ALPHABETICAL")
     PR.rule_renderers(ctx, rid="C12.SALT-EXACT", kinds=("str",), only_tags=("salt",))
     PR.rule_coercions(ctx, rid="C12.SALT-VALUE", fields={"salt", "splitting_fields"})
+    # the salt that is hashed is the text between the quotes, untouched: the string rule's action only drops its delimiters
+    from .c05 import rule_token_conv
+    salt_tokens = {p.syms[-1] for p in ctx.grammar.prods[1:] if len(p.syms) == 3 and p.syms[-1] in ctx.grammar.terminals
+                   and any(p.name in q.syms and q.name == ctx.grammar.by_name(ctx.grammar.start)[0].syms[0] for q in ctx.grammar.prods[1:])}
+    rule_token_conv(ctx, rid="C12.SALT-TOKEN-EXACT", only_tokens=salt_tokens or {"STRING_LITERAL"}, floor=1)
     ER.rule_call_forwards(ctx, rid="C12.CALL-FORWARDS")
     ER.rule_installed_function(ctx, rid="C12.INSTALLED-FUNCTION", strict=False, facets=("installed",))
     ER.rule_value_keyed_caches(ctx, rid="C12.NO-VALUE-KEYED-CACHE", modules={"binning/binning.py", "experiment_evaluator.py"})
